@@ -36,17 +36,19 @@ def check_cursor(ctx, rule, fn, param="s"):
     def guarded_counter(v):
         """local n: initialised to a constant and only incremented under the fact s[n] != 0."""
         v = v.strip()
-        if v.kind != "DeclRefExpr" or v.d["d"] not in inits:
+        if v.kind != "DeclRefExpr" or not v.get("local"):
             return None
-        c0 = inits[v.d["d"]].strip().cv()
-        if c0 is None:
-            return None
+        c0 = inits[v.d["d"]].strip().cv() if v.d["d"] in inits else None
         for x in fn.all_nodes():
             if x.kind in ("UnaryOperator", "CompoundAssignOperator", "BinaryOperator") and x.get("op") in ("++", "--", "+=", "-=", "=", "*="):
                 if x.kind == "BinaryOperator" and x.op != "=":
                     continue
                 l = x.children[0].strip()
                 if l.kind == "DeclRefExpr" and l.d["d"] == v.d["d"]:
+                    if x.kind == "BinaryOperator" and x.op == "=" and x.children[1].strip().cv() is not None:
+                        k0 = x.children[1].strip().cv()
+                        c0 = k0 if c0 is None else max(c0, k0)      # constant (re)initialisation
+                        continue
                     if not (x.kind == "UnaryOperator" and x.op == "++"):
                         return None
                     ok = False
@@ -64,6 +66,8 @@ def check_cursor(ctx, rule, fn, param="s"):
                     if not ok:
                         return None
         return c0
+
+    _gc = guarded_counter
 
     def transfer(n, K):
         k = n.kind
@@ -216,6 +220,10 @@ def check_loop_progress(ctx, rule, fn, progress, default_vars=()):
         if not vars_:
             vars_ = set(default_vars)
 
+        if not vars_ and progress is None:
+            # `while(true)` style loop: the loop's cursor is whatever local it reassigns
+            for b_ in rb:
+                pass
         def modifies(n):
             if progress is not None:
                 return bool(progress(n))
@@ -240,6 +248,13 @@ def check_loop_progress(ctx, rule, fn, progress, default_vars=()):
                     body.add(p)
                     st.append(p)
         body.add(h)
+        if not vars_ and progress is None:
+            for b_ in body:
+                for n_ in fn.blocks[b_].nodes():
+                    if n_.kind == "BinaryOperator" and n_.op == "=":
+                        t_ = n_.children[0].strip()
+                        if t_.kind == "DeclRefExpr" and t_.get("local"):
+                            vars_.add(t_.d["d"])
         prog_blocks = {b for b in body if any(modifies(n) for n in fn.blocks[b].nodes())}
         # can we go h -> ... -> u inside the body avoiding progress blocks?
         stuck = False
